@@ -4,6 +4,7 @@
 package simnet
 
 import (
+	"errors"
 	"fmt"
 	"net"
 	"os"
@@ -51,6 +52,9 @@ type Conn struct {
 	rdeadline time.Time
 	delivered int // bytes handed to the client so far
 	timeouts  int
+	lastTO    time.Time // instant of the last read timeout
+	spin      int       // consecutive read timeouts at that same instant
+	livelock  atomic.Bool
 	cut       bool
 
 	// client -> server (wmu)
@@ -208,9 +212,25 @@ func (c *Conn) Read(p []byte) (int, error) {
 		}
 		d := time.Until(dl)
 		if d <= 0 {
+			now := time.Now()
 			c.rmu.Lock()
 			c.timeouts++
+			if now.Equal(c.lastTO) {
+				c.spin++
+			} else {
+				c.lastTO, c.spin = now, 0
+			}
+			spinning := c.spin >= SpinLimit
 			c.rmu.Unlock()
+			if spinning {
+				// The caller keeps reading against a deadline that has already passed without
+				// ever re-arming it: on the virtual clock this never ends. Break the loop with
+				// a hard error and report it.
+				if !c.livelock.Swap(true) && OnLivelock != nil {
+					OnLivelock(fmt.Sprintf("%d consecutive reads failed with i/o timeout at the same instant (read deadline %v in the past, never re-armed)", SpinLimit, -d))
+				}
+				return 0, &net.OpError{Op: "read", Net: "sim", Err: errors.New("simnet: livelock - reads spin on an expired deadline")}
+			}
 			return 0, &net.OpError{Op: "read", Net: "sim", Err: timeoutErr{}}
 		}
 		t := time.NewTimer(d)
@@ -408,6 +428,15 @@ func (c *Conn) DeliveredBytes() int {
 }
 
 // ReadTimeouts returns how many reads ended with a deadline expiry.
+// SpinLimit: so many read timeouts in a row at one instant of the clock mean the reader spins.
+const SpinLimit = 20000
+
+// OnLivelock, when set, is told about a reader spinning on an expired deadline.
+var OnLivelock func(msg string)
+
+// Livelocked reports whether a reader was caught spinning on an expired deadline.
+func (c *Conn) Livelocked() bool { return c.livelock.Load() }
+
 func (c *Conn) ReadTimeouts() int {
 	c.rmu.Lock()
 	defer c.rmu.Unlock()
